@@ -42,6 +42,8 @@ def run_one(mod, prop, item):
     res.setdefault('status', 'ok')
     res['wall_s'] = time.time() - t0
     res['id'] = item['id']
+    if item.get('soft'):
+        res['soft'] = True
     return res
 
 
@@ -90,7 +92,7 @@ def run_items(prop, items, jobs=None, timeout=300):
                 p.kill()
                 p.join()
                 results.append({'status': 'timeout', 'id': it['id'], 'why': 'hard wall-clock limit %ss' % it.get('timeout', timeout),
-                                'wall_s': time.time() - t0})
+                                'wall_s': time.time() - t0, 'soft': bool(it.get('soft'))})
             else:
                 still.append((p, pc, it, t0))
         running = still
@@ -122,6 +124,7 @@ def finish(prop, tier, seed, level, results, meta, t_start):
     solver_s = 0.0
     twins_ok = twins_bad = 0
     incon = []
+    soft_undecided = []
     skipped_why = []
     for r in results:
         counts[r['status']] = counts.get(r['status'], 0) + 1
@@ -144,6 +147,10 @@ def finish(prop, tier, seed, level, results, meta, t_start):
                 viols.append(v)
         if r['status'] == 'skipped':
             skipped_why.append({'id': r['id'], 'why': str(r.get('why'))[:300]})
+        if r.get('soft') and r['status'] in ('timeout', 'inconclusive') and not r.get('violations'):
+            # randomly generated instance that the solver could not decide within its budget: counted, not a verdict
+            soft_undecided.append({'id': r['id'], 'status': r['status'], 'why': str(r.get('why', r.get('inconclusive')))[:200]})
+            continue
         if r['status'] in ('timeout', 'error', 'harness', 'inconclusive') or r.get('inconclusive'):
             incon.append({'id': r['id'], 'status': r['status'], 'why': str(r.get('why', r.get('inconclusive')))[:600]})
     # replay files
@@ -174,6 +181,8 @@ def finish(prop, tier, seed, level, results, meta, t_start):
         'twins_detected': twins_ok,
         'twins_missed': twins_bad,
         'inconclusive': incon[:20],
+        'undecided_random_instances_beyond_solver_reach': soft_undecided[:20],
+        'undecided_random_instances': len(soft_undecided),
         'skipped_outside_bounds': skipped_why[:20],
         'known_findings_hit': {k: len(v) for k, v in known_hits.items()},
         'functions_encoded': meta.get('functions', []),
@@ -197,6 +206,8 @@ def finish(prop, tier, seed, level, results, meta, t_start):
         for v in viols[:5]:
             print('  ->', v.get('instance'), v.get('key'), str(v.get('label'))[:200])
         return EXIT_VIOLATION
+    if len(soft_undecided) > max(2, 0.02 * len(results)):
+        incon.append({'id': '-', 'status': 'inconclusive', 'why': '%d randomly generated instances undecided (more than 2%%)' % len(soft_undecided)})
     if incon or twins_bad:
         for i in incon[:8]:
             print('INCONCLUSIVE', i['id'], i['status'], i['why'][-400:].replace('\n', ' | '))
